@@ -20,10 +20,19 @@ def main():
         s = (m.get("summary") or "").replace("|", "/").replace("\n", " ")
         need = (m.get("needs_to_manifest") or "").replace("|", "/").replace("\n", " ")
         n += 1
-        if not m["detected_by"]:
+        det = list(m["detected_by"])
+        how = ""
+        ed = m.get("evaluated_differentially")
+        if m.get("stale") and ed:
+            det = sorted(p for p, r in ed["results"].items() if r["added"])
+            how = " (on %s, the newest commit it applies to; what it adds to that tree's violations)" % ed["on_commit"]
+            if det:
+                first = ed["results"][det[0]]["added"][0][0]
+        if not det:
             miss += 1
-        rows.append("| %s | %s — *needs:* %s | %s%s |" % (m["id"], s[:260], need[:220], ", ".join(m["detected_by"]) or "**not detected** (see text)",
-                                                         (": " + first[:120]) if first else ""))
+        note = (" — " + m["note"][:200]) if m.get("note") and not det else ""
+        rows.append("| %s | %s — *needs:* %s | %s%s%s%s |" % (m["id"], s[:260], need[:220], ", ".join(det) or "**not detected**", how,
+                                                             (": " + first[:120]) if first and det else "", note))
     text = "\n".join(rows) + "\n\n%d seeded changes kept, %d not detected by any quick check.\n" % (n, miss)
     p = os.path.join(ROOT, "DESIGN.md")
     s = open(p).read()
